@@ -197,12 +197,32 @@ def cancellation (prec1 : Nat) (wr : List Nat) (e : Int) : List Nat × Int :=
   let e1 := e - ((wr.length - w.length : Nat) : Int)
   ((w.take prec1).reverse, e1)                   -- :117-123
 
+/-- sub.c:319-393: the overlap geometries on the selected, low-zero-stripped limbs (u > v in value);
+    ed = ediff.  Returns tp with max(usize, vsize+ed) limbs = u·B^.. − v·B^.. (mod B^rsize). -/
+def subLimbs (up vp : List Nat) (ed : Nat) : List Nat :=
+  let usize := up.length
+  let vsize := vp.length
+  if usize > ed then
+    if ed = 0 then
+      if usize ≥ vsize then              -- :329-338  uuuu / vv
+        let size := usize - vsize
+        up.take size ++ wrapSub vsize (val (up.drop size)) (val vp)
+      else                               -- :339-351  uuuu / vvvvvvv
+        wrapSub vsize (val up * B ^ (vsize - usize)) (val vp)
+    else
+      if vsize + ed ≤ usize then         -- :355-364  uuuu / (ed) v
+        let size := usize - ed - vsize
+        up.take size ++ wrapSub (usize - size) (val (up.drop size)) (val vp)
+      else                               -- :365-377  uuuu / (ed) vvvvv
+        wrapSub (vsize + ed) (val up * B ^ (vsize + ed - usize)) (val vp)
+  else                                   -- :380-393  uuuu / (gap) vv
+    wrapSub (vsize + ed - usize + usize) (val up * B ^ (vsize + ed - usize)) (val vp)
+
 /-- sub.c:262-403 `general_case:` on little-endian operands; prec1 = PREC(r)+1.
     Returns (limbs, exp, swapped) where swapped = the `negate ^= 1` of :311. -/
 def subGeneral (prec1 : Nat) (ud vd : List Nat) (exp : Int) (ediff : Int) : List Nat × Int × Bool :=
   let up0 := top prec1 ud                        -- :264-268
-  let vsize0 : Int := vd.length
-  let vp0 := if vsize0 + ediff > prec1 then vd.drop (vsize0 + ediff - prec1).toNat else vd   -- :272-276
+  let vp0 := selV prec1 vd ediff                 -- :272-276
   if ediff ≥ prec1 then (up0, exp, false)        -- :282-288
   else
     let vp := stripLow vp0                       -- :293-304
@@ -211,30 +231,7 @@ def subGeneral (prec1 : Nat) (ud vd : List Nat) (exp : Int) (ediff : Int) : List
       let up := stripLow up0                     -- :305-317
       if up.length = 0 then (vp, exp, true)      -- :307-313
       else
-        let usize := up.length
-        let vsize := vp.length
-        let ed := ediff.toNat
-        let (tp, rsize) : List Nat × Nat :=
-          if usize > ed then
-            if ed = 0 then
-              if usize ≥ vsize then              -- :329-338
-                let size := usize - vsize
-                (up.take size ++ wrapSub vsize (val (up.drop size)) (val vp), usize)
-              else                               -- :339-351
-                let size := vsize - usize
-                (wrapSub vsize (val up * B ^ size) (val vp), vsize)
-            else
-              if vsize + ed ≤ usize then         -- :355-364
-                let size := usize - ed - vsize
-                (up.take size ++ wrapSub (usize - size) (val (up.drop size)) (val vp), usize)
-              else                               -- :365-377
-                let size := vsize + ed - usize
-                (wrapSub (vsize + ed) (val up * B ^ size) (val vp), vsize + ed)
-          else                                   -- :380-393
-            let size := vsize + ed - usize
-            (wrapSub (size + usize) (val up * B ^ size) (val vp), size + usize)
-        let _ := rsize
-        let (rd, e) := stripHigh tp exp          -- :395-402 normalize
+        let (rd, e) := stripHigh (subLimbs up vp ediff.toNat) exp   -- :319-402
         (rd, e, false)
 
 /-- sub.c:170-259: the `x+1 000… / x fff…` path.  `ur`, `vr` most significant first, already past the
@@ -377,93 +374,10 @@ def add_ui (prec : Nat) (rIsU : Bool) (u : F) (v : Nat) : F :=
         let rd := up ++ List.replicate nexp 0 ++ [v]                              -- :136-139
         ⟨prec, rd.length, 1, rd⟩
 
-/-- ui_sub.c:184-322: the generic part after truncation.  `prec` as set at :78/:90.
-    Returns (limbs, exp, negate flipped). -/
-def uiSubGeneral (prec : Nat) (ud vd : List Nat) (uexp : Int) (ediff : Int) : List Nat × Int × Bool :=
-  let up0 := top prec ud                         -- :129-133
-  let vsize0 : Int := vd.length
-  let vp0 := if vsize0 + ediff > prec then vd.drop (vsize0 + ediff - prec).toNat else vd   -- :137-141
-  if ediff ≥ prec then (up0, uexp, false)        -- :147-153
-  else
-    let vp := stripLow vp0                       -- :158-169
-    if vp.length = 0 then (up0, uexp, false)
-    else
-      let up := stripLow up0                     -- :170-182
-      if up.length = 0 then (vp, uexp, true)
-      else
-        let usize := up.length
-        let vsize := vp.length
-        let ed := ediff.toNat
-        let (tp, flip) : List Nat × Bool :=
-          if usize > ed then
-            if ed = 0 then
-              if usize > vsize then              -- :194-222
-                let size := usize - vsize
-                if val (up.drop size) ≥ val vp then          -- cmp >= 0
-                  (up.take size ++ wrapSub vsize (val (up.drop size)) (val vp), false)
-                else                                         -- :208-221 v - u
-                  (wrapSub usize (val vp * B ^ size) (val up), true)
-              else if usize < vsize then         -- :223-252
-                let size := vsize - usize
-                if val up > val (vp.drop size) then          -- cmp > 0
-                  (wrapSub vsize (val up * B ^ size) (val vp), false)
-                else
-                  (vp.take size ++ wrapSub usize (val (vp.drop size)) (val up), true)
-              else                               -- :253-271
-                if val up > val vp then (wrapSub usize (val up) (val vp), false)
-                else (wrapSub usize (val vp) (val up), true)
-            else
-              if vsize + ed ≤ usize then         -- :275-284
-                let size := usize - ed - vsize
-                (up.take size ++ wrapSub (usize - size) (val (up.drop size)) (val vp), false)
-              else                               -- :285-297
-                let size := vsize + ed - usize
-                (wrapSub (vsize + ed) (val up * B ^ size) (val vp), false)
-          else                                   -- :300-313
-            let size := vsize + ed - usize
-            (wrapSub (size + usize) (val up * B ^ size) (val vp), false)
-        let (rd, e) := stripHigh tp uexp         -- :315-321
-        (rd, e, flip)
-
-/-- ui_sub.c:97-126: skip equal leading limbs (ediff == 0).  Lists most significant first.
-    Returns (ur, vr, uexp). -/
-def uiSubScan : List Nat → List Nat → Int → List Nat × List Nat × Int
-  | a :: us, b :: vs, e =>
-      if a != b then
-        -- :112-125: one of the operands may now have leading zeros; matters only if the other is empty
-        (a :: us, b :: vs, e)
-      else
-        let e1 := e - 1                          -- :106
-        if us.isEmpty then                       -- :107 goto Lu0
-          let vs1 := vs.dropWhile (· == 0)
-          ([], vs1, e1 - ((vs.length - vs1.length : Nat) : Int))
-        else if vs.isEmpty then                  -- :109 goto Lv0
-          let us1 := us.dropWhile (· == 0)
-          -- then falls into `if (usize == 0) Lu0:` with vsize == 0: no further change
-          (us1, [], e1 - ((us.length - us1.length : Nat) : Int))
-        else uiSubScan us vs e1
-  | us, vs, e => (us, vs, e)
-
-/-- ui_sub.c:27-328 -/
+/-- ui_sub.c:26-48 (since ea17729 a wrapper, as in GMP ≥ 5): u as a one-limb float, then mpf_sub -/
 def ui_sub (prec : Nat) (rIsV : Bool) (u : Nat) (v : F) : F :=
-  if u = 0 then neg prec rIsV v                                                   -- :42-46
-  else if v.size = 0 then set_ui prec u                                           -- :47-51
-  else if v.size < 0 then add_ui prec false {v with size := -v.size} u            -- :54-62
-  else
-    let big := 1 < v.exp                                                          -- :70
-    let negate := big
-    let (ud, vd) := if big then (v.d, [u]) else ([u], v.d)
-    let p := if big then prec + 1 else prec                                       -- :78 / :90
-    let uexp : Int := if big then v.exp else 1
-    let ediff : Int := if big then v.exp - 1 else 1 - v.exp
-    let (ud, vd, uexp) :=
-      if ediff = 0 then                                                           -- :97-126
-        let (ur, vr, e) := uiSubScan ud.reverse vd.reverse uexp
-        (ur.reverse, vr.reverse, e)
-      else (ud, vd, uexp)
-    let (rd, e, flip) := uiSubGeneral p ud vd uexp ediff
-    let neg' := negate != flip
-    ⟨prec, if neg' then -(rd.length : Int) else rd.length, if rd.length = 0 then 0 else e, rd⟩   -- :324-329 done
+  if u = 0 then neg prec rIsV v                                                   -- :37-41
+  else sub prec false rIsV ⟨2, 1, 1, [u]⟩ v                                       -- :43-47
 
 /- ------------------------------------------------------------------ division -/
 
@@ -679,7 +593,7 @@ def cmp (u v : F) : Int :=
 /-- count_leading_zeros of a non-zero limb -/
 def clz (x : Nat) : Nat := 63 - x.log2
 
-/-- eq.c:29-99 (n_bits ≥ 1) -/
+/-- eq.c:29-101 -/
 def eq (u v : F) (nbits : Nat) : Bool :=
   if (u.size < 0) != (v.size < 0) then false                                      -- :43, :53-57
   else if u.size = 0 then v.size = 0                                              -- :46-47
@@ -693,6 +607,7 @@ def eq (u v : F) (nbits : Nat) : Bool :=
     if cu ≠ cv then false
     else
       let n : Int := ((nbits + cu + 63) / 64 : Nat)                               -- :77
+      if n = 0 then true else                                                     -- :78-79 (9e50076)
       let k := (n.toNat * 64 - nbits - cu)                                        -- :79
       let get (l : List Nat) (i : Int) : Nat := if i ≥ 0 then l.getD i.toNat 0 else 0
       let uval := get u.d (usize - n)                                             -- :80-84
